@@ -76,18 +76,25 @@ func (t Task) run() (string, int) {
 		}
 		pb.SetCostFunc(ls, append([]int{}, t.Cost.W...))
 		s := solver.New(pb)
-		ch := make(chan solver.Result)
-		n := 0
+		ch := make(chan solver.Result, 2)
+		streamOK := true
 		done := make(chan struct{})
 		go func() {
-			for range ch {
-				n++
+			// the consumer keeps every result and reads its model while the solver goes on
+			var kept []solver.Result
+			for r := range ch {
+				kept = append(kept, r)
+				for _, k := range kept {
+					if k.Status == solver.Sat && (oracle.ModelSatisfies(t.Clauses, k.Model) >= 0 || t.Cost.Of(oracle.MaskOf(k.Model)) != k.Weight) {
+						streamOK = false
+					}
+				}
 			}
 			close(done)
 		}()
 		res := s.Optimal(ch, nil)
 		<-done
-		out := fmt.Sprintf("%v cost=%d", res.Status, res.Weight)
+		out := fmt.Sprintf("%v cost=%d stream-valid=%v", res.Status, res.Weight, streamOK)
 		if res.Status == solver.Sat {
 			out += fmt.Sprintf(" model-valid=%v cost-true=%v", oracle.ModelSatisfies(t.Clauses, res.Model) < 0, t.Cost.Of(oracle.MaskOf(res.Model)) == res.Weight)
 		}
@@ -97,16 +104,36 @@ func (t Task) run() (string, int) {
 		if err != nil {
 			return "error: " + err.Error(), 0
 		}
-		ch := make(chan solver.Result)
+		ch := make(chan solver.Result, 2)
 		done := make(chan struct{})
+		streamOK := true
 		go func() {
-			for range ch {
+			var kept []solver.Result
+			for r := range ch {
+				kept = append(kept, r)
+				for _, k := range kept { // read the models already received while the solver goes on
+					if k.Status != solver.Sat {
+						continue
+					}
+					cost := 0
+					for _, w := range t.WCNF {
+						if !oracle.ClauseTrue(w.Lits, oracle.MaskOf(k.Model)) {
+							if w.Weight == 0 {
+								streamOK = false
+							}
+							cost += w.Weight
+						}
+					}
+					if cost != k.Weight {
+						streamOK = false
+					}
+				}
 			}
 			close(done)
 		}()
 		res := s.Optimal(ch, nil)
 		<-done
-		return fmt.Sprintf("%v cost=%d", res.Status, res.Weight), 0
+		return fmt.Sprintf("%v cost=%d stream-valid=%v", res.Status, res.Weight, streamOK), 0
 	case "maxsat-api":
 		var cs []maxsat.Constr
 		for _, w := range t.WCNF {
